@@ -22,7 +22,8 @@ REQUIRED_COUNTERS = ['trees', 'constructions', 'drop_level_checks',
                      'malformed_tried_through_file_or_string_routes',
                      'leaf_pair_sets_checked', 'malformed_rejected',
                      'malformed_label_tables_rejected',
-                     'malformed_cellless_rejected']
+                     'malformed_cellless_rejected',
+                     'regrouped_twins_checked']
 EXHAUSTIVE = {'quick': False, 'thorough': True}
 RULE = ('case = a block of taxonomy shapes (thorough: all 470 unordered '
         'shapes with <=4 levels and <=6 leaves, exhaustive; quick: every '
@@ -522,6 +523,38 @@ def malformed_variants(model, data, rng):
     return out
 
 
+def check_regrouped_twin(ctx, model, idx):
+    """
+    Two taxonomies alive in one process that share level names, node names
+    and leaf names but group the nodes of one level differently (two
+    versions of a taxonomy in which some nodes moved to another parent):
+    each must answer every query from its own structure, in whichever
+    order they are asked.
+    """
+    from cell_type_mapper.taxonomy.taxonomy_tree import TaxonomyTree
+    d = len(model.hierarchy)
+    if d < 2:
+        return
+    lv = model.hierarchy[1 + idx % (d - 1)]
+    names = list(model.nodes[lv])
+    par = [model.parent[lv][n] for n in names]
+    rot = par[1:] + par[:1]
+    if rot == par:
+        return
+    twin = copy.deepcopy(model)
+    twin.parent[lv] = {n: p for n, p in zip(names, rot)}
+    first = TaxonomyTree(data=model.to_dict(with_cells=True))
+    for parent in model.all_parents():
+        first.leaves_to_compare(parent)
+    first.as_leaves
+    second = TaxonomyTree(data=twin.to_dict(with_cells=True))
+    compare_tree_to_model(ctx, second, twin, 'regrouped-twin')
+    compare_tree_to_model(ctx, first, model, 'original-after-twin')
+    third = TaxonomyTree(data=model.to_dict(with_cells=True))
+    compare_tree_to_model(ctx, third, model, 'original-rebuilt-after-twin')
+    ctx.bump('regrouped_twins_checked')
+
+
 def run_case(spec, work):
     rng = np.random.default_rng(spec['seed'])
     ctx = Ctx()
@@ -549,6 +582,15 @@ def run_case(spec, work):
             tb = traceback.format_exc()
             sig, last = oracles.exception_signature(tb)
             ctx.V(f'C10:exception:{sig}',
+                  f'{last} on {json.dumps(model.to_dict())[:600]}')
+        try:
+            check_regrouped_twin(ctx, model, len(sigset) + n_nontrivial)
+        except Exception:
+            import traceback
+            from vp import oracles
+            tb = traceback.format_exc()
+            sig, last = oracles.exception_signature(tb)
+            ctx.V(f'C10:exception[regrouped-twin]:{sig}',
                   f'{last} on {json.dumps(model.to_dict())[:600]}')
         if k >= 2:
             n_nontrivial += 1
